@@ -265,166 +265,341 @@ Notation "x * y" := (amul A x y).
 Notation "x - y" := (asub A x y).
 
 (* the verdicts mean what they say *)
-Lemma sem_verdict_sound o sd kwacc ps po o' haskw v :
+Lemma kw_absent_spec (k : kwv A) : kw_absent k = true -> kw_alpha k = None /\ kw_tol k = None.
+Proof. unfold kw_absent. destruct (kw_alpha k); [discriminate|]. destruct (kw_tol k); [discriminate|]. auto. Qed.
+
+Lemma den_semop_absent o x y (k : kwv A) vec :
+  kw_absent k = true -> den_semop A dr da o x y k vec = den_semop A dr da o x y (kw_none A) vec.
+Proof. intros H. destruct (kw_absent_spec k H) as [Ea Et]. unfold den_semop. rewrite Ea, Et. reflexivity. Qed.
+
+Lemma den_semop_comm o x y : comm o = true ->
+  den_semop A dr da o x y (kw_none A) false = den_semop A dr da o y x (kw_none A) false.
+Proof. destruct o; simpl; try discriminate; intros _; ring. Qed.
+
+Lemma sem_verdict_sound0 o sd kwacc ps po o' haskw v :
   sem_verdict (SemBin o sd kwacc) [ps; po] (EBinF o' haskw) = v -> v = VOk \/ v = VOkNoKw ->
   forall x0 x1 (k : kwv A), (v = VOkNoKw \/ haskw = false -> kw_absent k = true) ->
-  den_method A dr da o sd (nth2 ps x0 x1) (nth2 po x0 x1) k false = den_expected A dr da o' x0 x1 k false.
+  den_method A dr da o sd kwacc (nth2 ps x0 x1) (nth2 po x0 x1) k false = den_expected A dr da o' x0 x1 k false.
 Proof.
   unfold sem_verdict. destruct (semop_eqb o o') eqn:Eo; simpl; [|intros <- [?|?]; discriminate].
   assert (o = o') by (destruct o, o'; simpl in Eo; congruence). subst o'. clear Eo.
-  intros H Hv x0 x1 k Hk.
-  assert (Habs : kw_absent k = true -> kw_alpha k = None /\ kw_tol k = None).
-  { unfold kw_absent. destruct (kw_alpha k); [discriminate|]. destruct (kw_tol k); [discriminate|]. auto. }
-  destruct sd.
-  - destruct ps as [|[|ps]], po as [|[|po]]; simpl in H; try (subst v; destruct Hv; discriminate).
-    + (* self = x0, other = x1 *) reflexivity.
-    + (* self = x1, other = x0 *)
-      destruct (comm o) eqn:C; simpl in H; [|subst v; destruct Hv; discriminate].
-      assert (Ha : kw_absent k = true).
-      { apply Hk. destruct haskw; simpl in H; [|auto]. destruct kwacc; subst v; [destruct Hv; discriminate|auto]. }
-      destruct (Habs Ha) as [Ea Et].
-      unfold den_method, den_expected, den_semop, nth2. rewrite ?Ea, ?Et.
-      destruct o; simpl in C; try discriminate; ring.
-  - destruct ps as [|[|ps]], po as [|[|po]]; simpl in H; try (subst v; destruct Hv; discriminate).
-    + (* self = x0, other = x1: method computes o(x1, x0) *)
-      destruct (comm o) eqn:C; simpl in H; [|subst v; destruct Hv; discriminate].
-      assert (Ha : kw_absent k = true).
-      { apply Hk. destruct haskw; simpl in H; [|auto]. destruct kwacc; subst v; [destruct Hv; discriminate|auto]. }
-      destruct (Habs Ha) as [Ea Et].
-      unfold den_method, den_expected, den_semop, nth2, kw_none. simpl. rewrite ?Ea, ?Et.
-      destruct o; simpl in C; try discriminate; ring.
-    + (* self = x1, other = x0: method computes o(x0, x1) without keyword *)
-      assert (Ha : kw_absent k = true).
-      { apply Hk. destruct haskw; simpl in H; [|auto]. destruct kwacc; subst v; [destruct Hv; discriminate|auto]. }
-      destruct (Habs Ha) as [Ea Et].
-      unfold den_method, den_expected, den_semop, nth2, kw_none. simpl. rewrite ?Ea, ?Et. reflexivity.
+  set (l := match sd with SelfLeft => ps | SelfRight => po end).
+  set (r := match sd with SelfLeft => po | SelfRight => ps end).
+  assert (Hm : forall x0 x1 k, den_method A dr da o sd kwacc (nth2 ps x0 x1) (nth2 po x0 x1) k false
+                = den_semop A dr da o (nth2 l x0 x1) (nth2 r x0 x1) (if kwacc then k else kw_none A) false)
+    by (intros; destruct sd; reflexivity).
+  intros H Hv x0 x1 k Hk. rewrite Hm. unfold den_expected.
+  destruct (Nat.eqb l 0 && Nat.eqb r 1) eqn:E1.
+  - apply andb_prop in E1 as [El Er]. apply Nat.eqb_eq in El, Er. rewrite El, Er. simpl.
+    destruct kwacc; [reflexivity|].
+    destruct haskw; simpl in H.
+    + symmetry. apply den_semop_absent. apply Hk. now left.
+    + symmetry. apply den_semop_absent. apply Hk. now right.
+  - destruct (Nat.eqb l 1 && Nat.eqb r 0 && comm o) eqn:E2; [|subst v; destruct Hv; discriminate].
+    apply andb_prop in E2 as [E2 C]. apply andb_prop in E2 as [El Er].
+    apply Nat.eqb_eq in El, Er. rewrite El, Er. simpl.
+    assert (Ha : kw_absent k = true).
+    { apply Hk. destruct haskw; simpl in H; [|now right]. destruct kwacc; subst v; [destruct Hv; discriminate|now left]. }
+    rewrite (den_semop_absent o x0 x1 k false Ha).
+    assert (Hk' : den_semop A dr da o x1 x0 (if kwacc then k else kw_none A) false = den_semop A dr da o x1 x0 (kw_none A) false)
+      by (destruct kwacc; [now apply den_semop_absent|reflexivity]).
+    rewrite Hk'. now apply den_semop_comm.
+Qed.
+
+Lemma den_semop_comm_vec o x y (k : kwv A) vec : comm o = true ->
+  den_semop A dr da o x y k vec = den_semop A dr da o x y k false.
+Proof. destruct o; simpl; try discriminate; reflexivity. Qed.
+
+(* vec: the caller's first argument is a 1-D tensor (torch: v @ M = M^T v); only the operand that is
+   not `self` can be one *)
+Lemma sem_verdict_sound o sd kwacc ps po o' haskw v :
+  sem_verdict (SemBin o sd kwacc) [ps; po] (EBinF o' haskw) = v -> v = VOk \/ v = VOkNoKw ->
+  forall x0 x1 (k : kwv A) vec, (v = VOkNoKw \/ haskw = false -> kw_absent k = true) -> (vec = true -> po = 0) ->
+  den_method A dr da o sd kwacc (nth2 ps x0 x1) (nth2 po x0 x1) k vec = den_expected A dr da o' x0 x1 k vec.
+Proof.
+  intros H Hv x0 x1 k vec Hk Hvec. destruct vec.
+  2:{ destruct sd; apply (sem_verdict_sound0 _ _ _ _ _ _ _ _ H Hv x0 x1 k Hk). }
+  specialize (Hvec eq_refl). subst po.
+  pose proof (sem_verdict_sound0 _ _ _ _ _ _ _ _ H Hv x0 x1 k Hk) as H0.
+  revert H. unfold sem_verdict. destruct (semop_eqb o o') eqn:Eo; simpl; [|intros <-; destruct Hv; discriminate].
+  assert (o = o') by (destruct o, o'; simpl in Eo; congruence). subst o'. clear Eo.
+  destruct sd; simpl.
+  - (* SelfLeft: left = ps, right = 0: only the commutative swapped case is good *)
+    rewrite andb_false_r.
+    destruct (Nat.eqb ps 1 && true && comm o) eqn:E2; [|intros <-; destruct Hv; discriminate].
+    apply andb_prop in E2 as [_ C]. intros _.
+    unfold den_expected in *. rewrite (den_semop_comm_vec o x0 x1 k true C). exact H0.
+  - (* SelfRight: left = 0, right = ps *)
+    destruct (Nat.eqb ps 1) eqn:E1; simpl; [|intros <-; destruct Hv; discriminate].
+    apply Nat.eqb_eq in E1. subst ps. intros H. unfold den_method, den_expected, nth2.
+    destruct kwacc; [reflexivity|].
+    symmetry. apply den_semop_absent. apply Hk. destruct haskw; simpl in H; [now left|now right].
 Qed.
 
 End Sound.
 
 (* ------------------------------------------------------------------------------------------ *)
-(** * Cells: one registered function x one class x one position of the operator *)
+(** * Cells: one call shape = one function x the kinds of its arguments *)
 
 Definition good (v : verdict) : bool := match v with VOk | VOkNoKw => true | _ => false end.
 Lemma good_spec v : good v = true -> v = VOk \/ v = VOkNoKw.
 Proof. destruct v; simpl; auto; discriminate. Qed.
 
-Definition tbl_of_pos (pos : nat) : tbl := match pos with 0 => First | _ => Second end.
-
-(* the operator at position pos, a Tensor at the other position *)
-Definition args_at (c : string) (pos : nat) (e : esem) : list argk :=
-  match e with
-  | EFunF _ => [KOp c]
-  | EBinF _ _ => match pos with 0 => [KOp c; KTensor] | _ => [KTensor; KOp c] end
-  end.
+Lemma sem_verdict_nokw o sd kwacc ps po o' haskw :
+  sem_verdict (SemBin o sd kwacc) [ps; po] (EBinF o' haskw) = VOkNoKw -> haskw = true /\ kwacc = false.
+Proof.
+  unfold sem_verdict. destruct (negb (semop_eqb o o')); [discriminate|].
+  destruct (_ && _).
+  - destruct haskw, kwacc; simpl; try discriminate; auto.
+  - destruct (_ && _ && _); [|discriminate]. destruct haskw, kwacc; simpl; try discriminate; auto.
+Qed.
 
 Definition not_other (k : mkind) : bool := match k with MOther => false | _ => true end.
 
-Definition bin_cell_ok (w : world) (c f : string) (pos : nat) : bool :=
-  match expected f with
-  | Some (EBinF o haskw) =>
-      match dispatch w f (args_at c pos (EBinF o haskw)) with
-      | DCall d m k [ps; po] true =>
-          match method_sem m with
-          | Some (SemBin o' sd kwacc) =>
-              not_other k && good (sem_verdict (SemBin o' sd kwacc) [ps; po] (EBinF o haskw))
-          | _ => false
-          end
+(* the dispatch outcome [d] of a two-operand call meant as [e] is right *)
+Definition bin_ok (e : esem) (d : disp) : bool :=
+  match e, d with
+  | EBinF o haskw, DCall _ m k [ps; po] _ =>
+      match method_sem m with
+      | Some (SemBin o' sd kwacc) => not_other k && good (sem_verdict (SemBin o' sd kwacc) [ps; po] (EBinF o haskw))
       | _ => false
       end
-  | _ => false
+  | _, _ => false
   end.
 
-(* meaning of a good two-operand cell: the method that runs returns, for all operands in any
-   algebra satisfying the laws, what the caller of torch.f(x0, x1, kw) means *)
-Definition sem_cell (w : world) (c f : string) (pos : nat) : Prop :=
-  exists o haskw d m k ps po o' sd kwacc v,
-    expected f = Some (EBinF o haskw) /\
-    dispatch w f (args_at c pos (EBinF o haskw)) = DCall d m k [ps; po] true /\ k <> MOther /\
+(* what bin_ok means: a function object found in a class __dict__ is called; under the contract of its
+   name it returns, for all operands of any algebra satisfying the laws, what the caller of
+   f(x0, x1, kw) means.  (A keyword the method does not accept must be absent: VOkNoKw.) *)
+Definition bin_meaning (o : semop) (haskw : bool) (d : disp) : Prop :=
+  exists dd m k ps po kwf o' sd kwacc v,
+    d = DCall dd m k [ps; po] kwf /\ k <> MOther /\
     method_sem m = Some (SemBin o' sd kwacc) /\
     sem_verdict (SemBin o' sd kwacc) [ps; po] (EBinF o haskw) = v /\ (v = VOk \/ v = VOkNoKw) /\
-    forall (A : alg) (L : alg_laws A) (dr da x0 x1 : car A) (kw : kwv A),
-      (v = VOkNoKw \/ haskw = false -> kw_absent kw = true) ->
-      den_method A dr da o' sd (nth2 ps x0 x1) (nth2 po x0 x1) kw false = den_expected A dr da o x0 x1 kw false.
+    forall (A : alg) (L : alg_laws A) (dr da x0 x1 : car A) (kw : kwv A) (vec : bool),
+      (* a keyword may be passed only if f has one and the method that runs accepts it *)
+      (haskw && kwacc = false -> kw_absent kw = true) ->
+      (* vec: x0 is 1-D; only the operand that is not `self` can be *)
+      (vec = true -> po = 0) ->
+      den_method A dr da o' sd kwacc (nth2 ps x0 x1) (nth2 po x0 x1) kw vec = den_expected A dr da o x0 x1 kw vec.
 
-Lemma bin_cell_sound w c f pos : bin_cell_ok w c f pos = true -> sem_cell w c f pos.
+Lemma bin_ok_sound o haskw d : bin_ok (EBinF o haskw) d = true -> bin_meaning o haskw d.
 Proof.
-  unfold bin_cell_ok, sem_cell.
-  destruct (expected f) as [[o haskw|t]|] eqn:Ee; try discriminate.
-  destruct (dispatch w f _) as [d m k perm kwb| | |] eqn:Ed; try discriminate.
+  unfold bin_ok, bin_meaning.
+  destruct d as [dd m k perm kwf| | |]; try discriminate.
   destruct perm as [|ps [|po [|? ?]]]; try discriminate.
-  destruct kwb; try discriminate.
   destruct (method_sem m) as [[o' sd kwacc|?]|] eqn:Em; try discriminate.
   intros H. apply andb_prop in H as [Hk Hg]. apply good_spec in Hg.
-  exists o, haskw, d, m, k, ps, po, o', sd, kwacc, (sem_verdict (SemBin o' sd kwacc) [ps; po] (EBinF o haskw)).
+  exists dd, m, k, ps, po, kwf, o', sd, kwacc, (sem_verdict (SemBin o' sd kwacc) [ps; po] (EBinF o haskw)).
   repeat split; auto.
   - destruct k; simpl in Hk; congruence.
-  - intros A L dr da x0 x1 kw Hkw. eapply sem_verdict_sound; eauto.
+  - intros A L dr da x0 x1 kw vec Hkw Hvec. eapply sem_verdict_sound; eauto.
+    intros [Hv|Hh]; apply Hkw.
+    + apply sem_verdict_nokw in Hv as [-> ->]. reflexivity.
+    + now rewrite Hh.
 Qed.
 
-(* one-operand (pass-through) functions: the method that runs has the calling convention of f *)
-Definition fun_cell_ok (w : world) (c f : string) : bool :=
-  match expected f with
-  | Some (EFunF t) =>
-      match dispatch w f [KOp c] with
-      | DCall d m k [0] true =>
-          match method_sem m with Some (SemFun t') => not_other k && String.eqb t' t | _ => false end
+(* one-operand (pass-through) functions: the method that runs has the calling convention of f and
+   receives the caller's arguments unchanged, the operator first *)
+Fixpoint natlist_eqb (a b : list nat) : bool :=
+  match a, b with [], [] => true | x :: r, y :: q => Nat.eqb x y && natlist_eqb r q | _, _ => false end.
+Lemma natlist_eqb_eq a b : natlist_eqb a b = true -> a = b.
+Proof.
+  revert b; induction a as [|x r IH]; destruct b as [|y q]; simpl; try congruence.
+  intros H. apply andb_prop in H as [H1 H2]. apply Nat.eqb_eq in H1. f_equal; auto.
+Qed.
+Definition fun_ok (t : string) (nargs : nat) (d : disp) : bool :=
+  match d with
+  | DCall _ m k perm true =>
+      match method_sem m with
+      | Some (SemFun t') => not_other k && String.eqb t' t && natlist_eqb perm (seq_from 0 nargs)
       | _ => false
       end
   | _ => false
   end.
-Definition fun_cell (w : world) (c f : string) : Prop :=
-  exists t d m k, expected f = Some (EFunF t) /\ dispatch w f [KOp c] = DCall d m k [0] true /\
-                  k <> MOther /\ method_sem m = Some (SemFun t).
-Lemma fun_cell_sound w c f : fun_cell_ok w c f = true -> fun_cell w c f.
+Definition fun_meaning (t : string) (nargs : nat) (d : disp) : Prop :=
+  exists dd m k, d = DCall dd m k (seq_from 0 nargs) true /\ k <> MOther /\ method_sem m = Some (SemFun t).
+Lemma fun_ok_sound t n d : fun_ok t n d = true -> fun_meaning t n d.
 Proof.
-  unfold fun_cell_ok, fun_cell.
-  destruct (expected f) as [[o haskw|t]|] eqn:Ee; try discriminate.
-  destruct (dispatch w f _) as [d m k perm kwb| | |] eqn:Ed; try discriminate.
-  destruct perm as [|[|?] [|? ?]]; try discriminate. destruct kwb; try discriminate.
+  unfold fun_ok, fun_meaning. destruct d as [dd m k perm kwf| | |]; try discriminate.
+  destruct kwf; try discriminate.
   destruct (method_sem m) as [[?|t']|] eqn:Em; try discriminate.
-  intros H. apply andb_prop in H as [Hk Ht]. apply String.eqb_eq in Ht. subst t'.
-  exists t, d, m, k. repeat split; auto. destruct k; simpl in Hk; congruence.
+  intros H. apply andb_prop in H as [H Hp]. apply andb_prop in H as [Hk Ht].
+  apply String.eqb_eq in Ht. subst t'.
+  apply natlist_eqb_eq in Hp. subst perm.
+  exists dd, m, k. repeat split; auto. destruct k; simpl in Hk; congruence.
 Qed.
 
-(* ---- the cells of the registration tables ---- *)
+(* ---- the cells ---- *)
+Inductive okind := OTensor | OScalar | OOp (d : string).    (* kind of the operand that is not the operator under test *)
+Definition argk_of (k : okind) : argk := match k with OTensor => KTensor | OScalar => KScalar | OOp d => KOp d end.
+Definition cell_args (c : string) (pos : nat) (k : okind) : list argk :=
+  match pos with 0 => [KOp c; argk_of k] | _ => [argk_of k; KOp c] end.
+
 Definition is_bin (f : string) : bool := match expected f with Some (EBinF _ _) => true | _ => false end.
-Definition is_fun (f : string) : bool := match expected f with Some (EFunF _) => true | _ => false end.
+Definition prefixb (p s : string) : bool := String.prefix p s.
+Definition is_tensor_method (f : string) : bool := prefixb "torch.Tensor." f.
 
-(* named, visible exclusions: cells whose defect on the pinned tree is a recorded finding *)
-Definition kd_add_alpha_second (f : string) (pos : nat) : bool := String.eqb f "torch.add" && Nat.eqb pos 1.
-Definition kd_isclose_second (f : string) (pos : nat) : bool := String.eqb f "torch.isclose" && Nat.eqb pos 1.
+(* the call was routed through the second-argument branch: self = args[1], other = args[0] *)
+Definition second_route (d : disp) : bool := match d with DCall _ _ _ (1 :: 0 :: _) _ => true | _ => false end.
 
-Definition table_cells_ok (w : world) : bool :=
-  forallb (fun c =>
-    forallb (fun fm => let f := fst fm in
-                       if is_bin f then bin_cell_ok w c f 0 else fun_cell_ok w c f) (w_first w) &&
-    forallb (fun fm => let f := fst fm in
-                       kd_add_alpha_second f 1 || kd_isclose_second f 1 || bin_cell_ok w c f 1) (w_second w))
-    (w_opclasses w).
+(* NAMED, VISIBLE EXCLUSION (recorded findings C15-add-alpha-second-arg, C15-isclose-second-arg):
+   torch.add / torch.isclose are registered *symmetrically*, so a call routed through the
+   second-argument branch runs add(op, t, alpha) / isclose(op, t, rtol, atol): the keyword is applied
+   to, resp. the tolerance is taken relative to, the wrong operand.  Refuted below for every world
+   with these registrations (symmetric_add_refuted, symmetric_isclose_refuted). *)
+Definition kd_symmetric_second (f : string) (d : disp) : bool :=
+  (String.eqb f "torch.add" || String.eqb f "torch.isclose") && second_route d.
 
-Lemma lookup_some_in_fst {A} f (l : list (string * A)) m : lookup f l = Some m -> In (f, m) l.
-Proof. apply lookup_In. Qed.
+(* DOCUMENTED DOMAIN: div(self, other: Union[float, Tensor]) -- division by an operator is outside
+   the method's signature (1.0 / other needs other.__rtruediv__) *)
+Definition div_by_operator (f : string) (k : okind) : bool :=
+  String.eqb f "torch.div" && match k with OOp _ => true | _ => false end.
 
-Lemma table_cells_first w : table_cells_ok w = true ->
-  forall c f m, In c (w_opclasses w) -> lookup f (w_first w) = Some m ->
-  (is_bin f = true -> sem_cell w c f 0) /\ (is_bin f = false -> fun_cell w c f).
+Definition esem_of (f : string) : esem := match expected f with Some e => e | None => EFunF "" end.
+Definition is_nie (d : disp) : bool := match d with DRaise NotImplementedError => true | _ => false end.
+Definition strict_sub (w : world) (d c : string) : bool := subclassb w d c && negb (String.eqb c d).
+
+Definition okinds_plain : list okind := [OTensor; OScalar].
+
+Definition first_entry_ok (w : world) (c f : string) : bool :=
+  match expected f with
+  | Some (EBinF o hk) =>
+      forallb (fun k => bin_ok (EBinF o hk) (dispatch w f (cell_args c 0 k))) okinds_plain &&
+      forallb (fun d => div_by_operator f (OOp d) || bin_ok (EBinF o hk) (dispatch w f (cell_args c 0 (OOp d))) ||
+                        kd_symmetric_second f (dispatch w f (cell_args c 0 (OOp d))) ||
+                        (is_nie (dispatch w f (cell_args c 0 (OOp d))) && strict_sub w d c && negb (mem f (w_second w))))
+              (w_opclasses w)
+  | Some (EFunF t) =>
+      fun_ok t 1 (dispatch w f [KOp c]) && fun_ok t 2 (dispatch w f [KOp c; KTensor]) &&
+      fun_ok t 3 (dispatch w f [KOp c; KScalar; KScalar])
+  | None => false
+  end.
+Definition first_cells_ok (w : world) : bool :=
+  forallb (fun c => forallb (first_entry_ok w c) (map fst (w_first w))) (w_opclasses w).
+
+Definition second_kind_ok (w : world) (c f : string) (e : esem) (k : okind) : bool :=
+  (match k with OScalar => is_tensor_method f | _ => false end) ||
+  kd_symmetric_second f (dispatch w f (cell_args c 1 k)) || bin_ok e (dispatch w f (cell_args c 1 k)).
+Definition second_entry_ok (w : world) (c f : string) : bool :=
+  match expected f with
+  | Some (EBinF o hk) => forallb (second_kind_ok w c f (EBinF o hk)) okinds_plain
+  | _ => false
+  end.
+Definition second_cells_ok (w : world) : bool :=
+  forallb (fun c => forallb (second_entry_ok w c) (map fst (w_second w))) (w_opclasses w).
+
+Lemma forallb_In {T} (p : T -> bool) l x : forallb p l = true -> In x l -> p x = true.
+Proof. rewrite forallb_forall. auto. Qed.
+
+Lemma lookup_In_fst {A} f (l : list (string * A)) m : lookup f l = Some m -> In f (map fst l).
+Proof. intros H. apply lookup_In in H. change f with (fst (f, m)). now apply in_map. Qed.
+
+Lemma first_cells_bin w : first_cells_ok w = true ->
+  forall c f m o hk, In c (w_opclasses w) -> lookup f (w_first w) = Some m -> expected f = Some (EBinF o hk) ->
+  (forall k, k = OTensor \/ k = OScalar -> bin_meaning o hk (dispatch w f (cell_args c 0 k))) /\
+  (forall d, In d (w_opclasses w) -> div_by_operator f (OOp d) = false ->
+     kd_symmetric_second f (dispatch w f (cell_args c 0 (OOp d))) = false ->
+     bin_meaning o hk (dispatch w f (cell_args c 0 (OOp d))) \/
+     (dispatch w f (cell_args c 0 (OOp d)) = DRaise NotImplementedError /\ strict_sub w d c = true /\ mem f (w_second w) = false)).
 Proof.
-  unfold table_cells_ok. rewrite forallb_forall. intros H c f m Hc Hf.
-  specialize (H c Hc). apply andb_prop in H as [H1 _]. rewrite forallb_forall in H1.
-  specialize (H1 (f, m) (lookup_In _ _ _ Hf)). simpl in H1.
-  split; intros Hb; rewrite Hb in H1.
-  - now apply bin_cell_sound. - now apply fun_cell_sound.
+  intros H c f m o hk Hc Hf He.
+  pose proof (forallb_In _ _ _ (forallb_In _ _ _ H Hc) (lookup_In_fst _ _ _ Hf)) as H1.
+  unfold first_entry_ok in H1. rewrite He in H1. apply andb_prop in H1 as [Ha Hb]. split.
+  - intros k Hk. apply bin_ok_sound. apply (forallb_In _ _ _ Ha). destruct Hk as [-> | ->]; simpl; auto.
+  - intros d Hd Hdiv Hkd. pose proof (forallb_In _ _ _ Hb Hd) as H2. cbv beta in H2.
+    rewrite Hdiv, Hkd in H2. rewrite orb_false_l, orb_false_r in H2.
+    apply orb_prop in H2 as [H2|H2]; [left; now apply bin_ok_sound|right].
+    apply andb_prop in H2 as [H2 H3]. apply andb_prop in H2 as [H2 H4].
+    repeat split; auto.
+    + destruct (dispatch w f (cell_args c 0 (OOp d))) as [| [] | |]; simpl in H2; try discriminate; reflexivity.
+    + now apply negb_true_iff in H3.
 Qed.
 
-Lemma table_cells_second w : table_cells_ok w = true ->
-  forall c f m, In c (w_opclasses w) -> lookup f (w_second w) = Some m ->
-  kd_add_alpha_second f 1 = false -> kd_isclose_second f 1 = false -> sem_cell w c f 1.
+Lemma first_cells_fun w : first_cells_ok w = true ->
+  forall c f m t, In c (w_opclasses w) -> lookup f (w_first w) = Some m -> expected f = Some (EFunF t) ->
+  fun_meaning t 1 (dispatch w f [KOp c]) /\ fun_meaning t 2 (dispatch w f [KOp c; KTensor]) /\
+  fun_meaning t 3 (dispatch w f [KOp c; KScalar; KScalar]).
 Proof.
-  unfold table_cells_ok. rewrite forallb_forall. intros H c f m Hc Hf K1 K2.
-  specialize (H c Hc). apply andb_prop in H as [_ H2]. rewrite forallb_forall in H2.
-  specialize (H2 (f, m) (lookup_In _ _ _ Hf)). simpl in H2. rewrite K1, K2 in H2. simpl in H2.
-  now apply bin_cell_sound.
+  intros H c f m t Hc Hf He.
+  pose proof (forallb_In _ _ _ (forallb_In _ _ _ H Hc) (lookup_In_fst _ _ _ Hf)) as H1.
+  unfold first_entry_ok in H1. rewrite He in H1. apply andb_prop in H1 as [H1 H3]. apply andb_prop in H1 as [H1 H2].
+  repeat split; now apply fun_ok_sound.
+Qed.
+
+Lemma first_cells_expected w : first_cells_ok w = true ->
+  forall f m, w_opclasses w <> [] -> lookup f (w_first w) = Some m -> exists e, expected f = Some e.
+Proof.
+  intros H f m Hne Hf. unfold first_cells_ok in H. destruct (w_opclasses w) as [|c r] eqn:E; [congruence|].
+  assert (Hc : In c (c :: r)) by now left.
+  pose proof (forallb_In _ _ _ (forallb_In _ _ _ H Hc) (lookup_In_fst _ _ _ Hf)) as H1.
+  unfold first_entry_ok in H1. destruct (expected f); [eauto|discriminate].
+Qed.
+
+Lemma second_cells_bin w : second_cells_ok w = true ->
+  forall c f m, In c (w_opclasses w) -> lookup f (w_second w) = Some m ->
+  exists o hk, expected f = Some (EBinF o hk) /\
+    forall k, k = OTensor \/ (k = OScalar /\ is_tensor_method f = false) ->
+      kd_symmetric_second f (dispatch w f (cell_args c 1 k)) = false ->
+      bin_meaning o hk (dispatch w f (cell_args c 1 k)).
+Proof.
+  intros H c f m Hc Hf.
+  pose proof (forallb_In _ _ _ (forallb_In _ _ _ H Hc) (lookup_In_fst _ _ _ Hf)) as H1.
+  unfold second_entry_ok in H1.
+  destruct (expected f) as [[o hk|?]|]; try discriminate.
+  exists o, hk. split; [reflexivity|].
+  intros k Hk Hkd. apply bin_ok_sound.
+  assert (Hin : In k okinds_plain) by (destruct Hk as [-> | [-> _]]; simpl; auto).
+  pose proof (forallb_In _ _ _ H1 Hin) as H2. unfold second_kind_ok in H2. rewrite Hkd in H2.
+  destruct Hk as [-> | [-> Ht]]; [exact H2|].
+  rewrite Ht in H2. exact H2.
+Qed.
+
+(* ---- python's binary operators on operators ---- *)
+Definition semop_of (o : binop) : semop :=
+  match o with BAdd => SAdd | BSub => SSub | BMul => SMul | BDiv => SDiv | BMatmul => SMatmul end.
+Definition all_binops : list binop := [BAdd; BSub; BMul; BDiv; BMatmul].
+Definition is_div (o : binop) : bool := match o with BDiv => true | _ => false end.
+Definition is_mm (o : binop) : bool := match o with BMatmul => true | _ => false end.
+Definition is_exn (e : exn) (d : disp) : bool :=
+  match d, e with DRaise NotImplementedError, NotImplementedError | DRaise TypeError, TypeError => true | _, _ => false end.
+
+Definition binop_cells_ok (w : world) : bool :=
+  forallb (fun c => forallb (fun o =>
+    let e := EBinF (semop_of o) false in
+    bin_ok e (binop_dispatch w o (KOp c) KTensor) &&
+    (is_mm o || bin_ok e (binop_dispatch w o (KOp c) KScalar)) &&
+    (if is_div o
+     then is_exn NotImplementedError (binop_dispatch w o KTensor (KOp c)) && is_exn TypeError (binop_dispatch w o KScalar (KOp c))
+     else bin_ok e (binop_dispatch w o KTensor (KOp c)) && (is_mm o || bin_ok e (binop_dispatch w o KScalar (KOp c)))) &&
+    (is_div o || forallb (fun d => bin_ok e (binop_dispatch w o (KOp c) (KOp d))) (w_opclasses w)))
+    all_binops) (w_opclasses w).
+
+Lemma is_exn_spec e d : is_exn e d = true -> d = DRaise e.
+Proof. destruct d as [| [] | |], e; simpl; try discriminate; reflexivity. Qed.
+
+Lemma binop_cells_sound w : binop_cells_ok w = true ->
+  forall c o, In c (w_opclasses w) ->
+  let sem := bin_meaning (semop_of o) false in
+  sem (binop_dispatch w o (KOp c) KTensor) /\
+  (o <> BMatmul -> sem (binop_dispatch w o (KOp c) KScalar)) /\
+  (o <> BDiv -> sem (binop_dispatch w o KTensor (KOp c))) /\
+  (o <> BDiv -> o <> BMatmul -> sem (binop_dispatch w o KScalar (KOp c))) /\
+  (o = BDiv -> binop_dispatch w o KTensor (KOp c) = DRaise NotImplementedError /\
+               binop_dispatch w o KScalar (KOp c) = DRaise TypeError) /\
+  (o <> BDiv -> forall d, In d (w_opclasses w) -> sem (binop_dispatch w o (KOp c) (KOp d))).
+Proof.
+  intros H c o Hc sem.
+  assert (Ho : In o all_binops) by (destruct o; simpl; auto 6).
+  pose proof (forallb_In _ _ _ (forallb_In _ _ _ H Hc) Ho) as H1. simpl in H1.
+  apply andb_prop in H1 as [H1 H5]. apply andb_prop in H1 as [H1 H4]. apply andb_prop in H1 as [H1 H2].
+  split; [now apply bin_ok_sound|].
+  split. { intros Hn. destruct o; simpl in H2; try congruence; now apply bin_ok_sound. }
+  destruct o; simpl in H4, H5;
+    try (apply andb_prop in H4 as [H4a H4b]);
+    (split; [intros ?; try congruence; now apply bin_ok_sound|]);
+    (split; [intros ? ?; try congruence; now apply bin_ok_sound|]);
+    (split; [intros ?; try congruence; split; now apply is_exn_spec|]);
+    intros ? d Hd; try congruence; apply bin_ok_sound; now apply (forallb_In _ _ _ H5).
 Qed.
 
 (* ---- totality ---- *)
@@ -469,21 +644,114 @@ Proof.
   exists d, k. rewrite (torch_function_second _ _ _ _ _ Htf Hi), (lookup_mem _ _ _ Hf), Ht, Hf, Hr. auto.
 Qed.
 
+(* most derived: whatever __torch_function__ calls is the definition of the FIRST class of cls's MRO
+   that has the registered name in its __dict__ *)
+Lemma dispatch_most_derived_gen w cls f types args d m k p kw :
+  torch_function w cls f types args = DCall d m k p kw ->
+  exists pre post, mro w cls = (pre ++ d :: post)%list /\ own w d m = Some k /\
+                   forall d', In d' pre -> own w d' m = None.
+Proof. intros H. apply torch_function_call_resolved in H. now apply resolve_in_spec. Qed.
+
 (* ---- dispatch level: unregistered / foreign ---- *)
-Lemma dispatch_unregistered_gen w f args i c r :
+Lemma dispatch_first_op w f args c : first_op (overloaded w args) = Some c ->
+  dispatch w f args = torch_function w c f (map snd (overloaded w args)) args.
+Proof. unfold dispatch. intros H. destruct (overloaded w args); [discriminate|]. now rewrite H. Qed.
+
+Lemma dispatch_unregistered_gen w f args c :
   tf_ok (w_tf w) = true -> mem f (w_first w) = false -> mem f (w_second w) = false ->
-  overloaded w args = (i, KOp c) :: r -> dispatch w f args = DRaise NotImplementedError.
+  first_op (overloaded w args) = Some c -> dispatch w f args = DRaise NotImplementedError.
 Proof.
-  intros Htf H1 H2 Ho. unfold dispatch. rewrite Ho.
+  intros Htf H1 H2 Ho. rewrite (dispatch_first_op _ _ _ _ Ho).
   destruct args as [|a rest]; [discriminate|].
   now apply unregistered_raises_gen.
 Qed.
 
-Lemma dispatch_foreign_gen w f args i c r :
+Lemma dispatch_foreign_gen w f args c :
   tf_ok (w_tf w) = true -> In KForeign args ->
-  overloaded w args = (i, KOp c) :: r -> dispatch w f args = DRaise NotImplementedError.
+  first_op (overloaded w args) = Some c -> dispatch w f args = DRaise NotImplementedError.
 Proof.
-  intros Htf Hin Ho. unfold dispatch. rewrite Ho.
+  intros Htf Hin Ho. assert (Hf := foreign_in_types w args Hin).
+  rewrite (dispatch_first_op _ _ _ _ Ho).
   destruct args as [|a rest]; [discriminate|].
-  apply foreign_type_raises; auto. rewrite <- Ho. now apply foreign_in_types.
+  apply foreign_type_raises; auto.
+Qed.
+
+(* an operator anywhere among the arguments puts an operator class in charge *)
+Lemma first_op_In (ov : list (nat * argk)) c i : In (i, KOp c) ov -> exists c', first_op ov = Some c'.
+Proof.
+  induction ov as [|[j a] r IH]; [intros []|].
+  intros [H|H]; simpl.
+  - inversion H; subst. eauto.
+  - destruct a; eauto.
+Qed.
+
+Lemma overloaded_first_op w args : (exists c, In (KOp c) args) -> exists c', first_op (overloaded w args) = Some c'.
+Proof.
+  intros [c Hc].
+  destruct (overloaded_from_covers w args 0 [] (KOp c) Hc eq_refl) as [[i a] [Hx Hs]].
+  destruct a as [c'| | |]; simpl in Hs; try discriminate.
+  eapply first_op_In. exact Hx.
+Qed.
+
+(* ... hence: ANY call of an unregistered function with an operator anywhere among its arguments raises *)
+Lemma unregistered_any_position w f args :
+  tf_ok (w_tf w) = true -> mem f (w_first w) = false -> mem f (w_second w) = false ->
+  (exists c, In (KOp c) args) -> dispatch w f args = DRaise NotImplementedError.
+Proof.
+  intros Htf H1 H2 Hop. destruct (overloaded_first_op w args Hop) as [c Ho].
+  eapply dispatch_unregistered_gen; eauto.
+Qed.
+
+(* ... and so does any call, registered or not, that also involves an object of an unrelated overriding class *)
+Lemma foreign_any_position w f args :
+  tf_ok (w_tf w) = true -> In KForeign args -> (exists c, In (KOp c) args) ->
+  dispatch w f args = DRaise NotImplementedError.
+Proof.
+  intros Htf Hf Hop. destruct (overloaded_first_op w args Hop) as [c Ho].
+  eapply dispatch_foreign_gen; eauto.
+Qed.
+
+(* ------------------------------------------------------------------------------------------ *)
+(** * Well-formedness of a generated world (sanity of the translator's output) *)
+
+Fixpoint subseqb (a b : list string) : bool :=      (* a is a subsequence of b *)
+  match a, b with
+  | [], _ => true
+  | _ :: _, [] => false
+  | x :: r, y :: q => if String.eqb x y then subseqb r q else subseqb a q
+  end.
+Fixpoint nodupb (l : list string) : bool :=
+  match l with [] => true | x :: r => negb (strmem x r) && nodupb r end.
+
+Definition world_wf (w : world) : bool :=
+  nodupb (map fst (w_first w)) && nodupb (map fst (w_second w)) &&
+  nodupb (map fst (w_classes w)) && nodupb (map fst (w_defines w)) &&
+  strmem (w_root w) (w_opclasses w) && nodupb (w_opclasses w) &&
+  (* an operator class: listed, its MRO starts with itself, contains the root, has no repetition *)
+  forallb (fun c => match lookup c (w_classes w) with
+                    | Some (c0 :: r) => String.eqb c0 c && strmem (w_root w) (c0 :: r) && nodupb (c0 :: r)
+                    | _ => false end) (w_opclasses w) &&
+  (* every class of every MRO is listed (with its own MRO and __dict__), and MROs are monotone (C3) *)
+  forallb (fun cl => forallb (fun d => mem d (w_classes w) && mem d (w_defines w) &&
+                                       subseqb (mro w d) (snd cl)) (snd cl)) (w_classes w) &&
+  (* exactly the listed classes that have the root in their MRO are operator classes *)
+  forallb (fun cl => Bool.eqb (strmem (w_root w) (snd cl)) (strmem (fst cl) (w_opclasses w))) (w_classes w).
+
+Lemma wf_isinstance_self w c : world_wf w = true -> In c (w_opclasses w) -> isinstance w (KOp c) c = true.
+Proof.
+  unfold world_wf. intros H Hc.
+  repeat (apply andb_prop in H as [H ?]).
+  pose proof (forallb_In _ _ _ H2 Hc) as Hm. cbv beta in Hm.
+  unfold isinstance, subclassb, mro. destruct (lookup c (w_classes w)) as [[|c0 r]|]; try discriminate.
+  apply andb_prop in Hm as [Hm _]. apply andb_prop in Hm as [Hm _].
+  simpl. now rewrite String.eqb_sym, Hm.
+Qed.
+
+Lemma wf_subclass_root w c : world_wf w = true -> In c (w_opclasses w) -> subclassb w c (w_root w) = true.
+Proof.
+  unfold world_wf. intros H Hc.
+  repeat (apply andb_prop in H as [H ?]).
+  pose proof (forallb_In _ _ _ H2 Hc) as Hm. cbv beta in Hm.
+  unfold subclassb, mro. destruct (lookup c (w_classes w)) as [[|c0 r]|]; try discriminate.
+  apply andb_prop in Hm as [Hm _]. apply andb_prop in Hm as [_ Hm]. exact Hm.
 Qed.
